@@ -16,7 +16,7 @@ import (
 type WTaint struct {
 	Key    string
 	Effect string
-	Rel    bool   // value is "now - Ago" seconds
+	Rel    bool // value is "now - Ago" seconds
 	Ago    int64
 	Raw    string // literal value otherwise
 }
